@@ -23,6 +23,7 @@ let run_with (follow : bool) (line : string) : string =
   let conn = Array.make nlinks false and susp = Array.make nlinks false and gone = Array.make nlinks false in
   let nclone () = int_of_n !s.nclone in
   let root_alive () = not (!s.root_term || !s.root_dropped) in
+  let zombie () = !s.root_term && not !s.root_dropped in
   let calive c = (!s.clones (n_of_int c)).c_alive in
   let cterm c = (!s.clones (n_of_int c)).c_term in
   let idle p = pub_idle !s (n_of_int p) in
@@ -77,7 +78,7 @@ let run_with (follow : bool) (line : string) : string =
   let notified () =
     if root_alive () then for c = 1 to nclone () - 1 do if calive c then lag.(c) <- lag.(c) + 1 done in
   let connect l =
-    if conn.(l) then "skip" else if gone.(l) then "gone" else begin
+    if conn.(l) || zombie () then "skip" else if gone.(l) then "gone" else begin
       lag_guard ();
       if !s.root_dropped then (gone.(l) <- true; "gone") else begin
         notified ();
@@ -88,7 +89,7 @@ let run_with (follow : bool) (line : string) : string =
       end
     end in
   let link_cmd l what =
-    if not conn.(l) then "skip"
+    if not conn.(l) || zombie () then "skip"
     else if what = "s" && susp.(l) then "skip"
     else if what = "r" && not susp.(l) then "skip"
     else begin
@@ -114,9 +115,10 @@ let run_with (follow : bool) (line : string) : string =
       let (fin, _) = run_pub p in
       if fin then "done" else (blocked := !blocked @ [p]; "blk")
     end in
-  let stop_root terminate =
+  let stop_root terminate drop_gate =
     if terminate then (lag_guard (); notified (); act ASendTerm; root_drain ());
-    act ARootDrop; pubs_settle (); "ok" in
+    if drop_gate then act ARootDrop;
+    pubs_settle (); "ok" in
   let num o = match o with _ :: k :: _ -> (try int_of_string k with _ -> 0) | _ -> 0 in
   let out = ref [] in
   let emit t = out := t :: !out in
@@ -136,8 +138,10 @@ let run_with (follow : bool) (line : string) : string =
         else (act (ACloneDrop (n_of_int k)); root_drain (); emit "x:ok")
     | ("F" | "D" as w) :: _ ->
         if k = 0 || k >= nclone () then emit (w ^ ":skip") else emit (w ^ ":" ^ clone_process k (w = "D"))
-    | ("T" | "X" as w) :: _ ->
-        if not (root_alive ()) || not (idle 0) then emit (w ^ ":skip") else emit (w ^ ":" ^ stop_root (w = "T"))
+    | ("T" | "Z" as w) :: _ ->
+        if not (root_alive ()) || not (idle 0) then emit (w ^ ":skip") else emit (w ^ ":" ^ stop_root true (w = "T"))
+    | "X" :: _ ->
+        if !s.root_dropped || not (idle 0) then emit "X:skip" else emit ("X:" ^ stop_root false true)
     | _ -> emit "?") ops;
   (* final phase *)
   let progress = ref true in
@@ -146,7 +150,7 @@ let run_with (follow : bool) (line : string) : string =
     Stdlib.List.iter (fun l -> while query l = "item" do progress := true done) [0; 2; 4]
   done;
   let busy = Stdlib.List.filter (fun p -> not (idle p)) (Stdlib.List.init (nclone ()) (fun p -> p)) in
-  if root_alive () && busy = [] then ignore (stop_root true);
+  if root_alive () && busy = [] then ignore (stop_root true true);
   let terms = ref [] in
   for c = 1 to nclone () - 1 do
     if calive c && busy = [] then begin
@@ -155,6 +159,7 @@ let run_with (follow : bool) (line : string) : string =
       act (ACloneDrop (n_of_int c))
     end
   done;
+  if not !s.root_dropped && busy = [] then ignore (stop_root false true);
   let gones = ref [] in
   Stdlib.List.iter (fun l ->
     if conn.(l) && busy = [] then begin
